@@ -3,7 +3,7 @@
    established by the differential run on timed scenarios; what is proved here is the test every timeout decision goes through. *)
 From Coq Require Import ZArith NArith List Bool.
 Import ListNotations.
-From EIO Require Import Server ServerInv ServerProofs ServerCor.
+From EIO Require Import Server ServerInv ServerProofs ServerCor ServerTiming.
 
 (* a session is found timed out exactly when a PING is outstanding and strictly more than ping_timeout has passed since it *)
 Theorem c07_expired_iff : forall cfg ss t,
@@ -19,6 +19,16 @@ Theorem c07_deadline_exact : forall cfg ss t p, s_lastp ss = Some p ->
   ((t <= p + c_timeout cfg)%Z -> expired cfg ss t = false) /\ ((t > p + c_timeout cfg)%Z -> expired cfg ss t = true).
 Proof. exact deadline_exact. Qed.
 
+(* the step that follows the handshake or a processed PONG: no PING is outstanding any more, nothing is emitted, no time passes,
+   and the task now waits for a timer due exactly ping_interval later (whose firing sends the next PING) *)
+Theorem c07_ping_rearmed : forall cfg me e i s, t_task e = TPingStart i ->
+  let s' := stof (run_task cfg me e s) in
+  alookup me (tasks s') = Some {| t_task := TPing i (now s + c_interval cfg, tseq s)%Z; t_tout := false |} /\
+  now s' = now s /\ outof (run_task cfg me e s) = [] /\
+  (forall ss, alookup i (store s) = Some ss -> exists ss', alookup i (store s') = Some ss' /\ s_lastp ss' = None /\ s_q ss' = s_q ss /\ s_closed ss' = s_closed ss).
+Proof. exact ping_rearmed. Qed.
+
 Print Assumptions c07_expired_iff.
 Print Assumptions c07_live_peer_never_dropped.
 Print Assumptions c07_deadline_exact.
+Print Assumptions c07_ping_rearmed.
